@@ -4,7 +4,7 @@ from .core import log
 
 RULE = ("inputs = corpus (incl. the 10 non-UTF-8 files) + seeded corpus mutants + TLC-generated texts (every spelling, layouts, "
         "decor, single-symbol mutations and truncations) + TomlDoc behaviours + the date-time edge strings of MCDateGen (every field at and beyond its edge, 0-12 fraction digits) as document values + damaged UTF-8 encodings (truncated sequences, "
-        "overlongs, surrogates, bytes >= 0xF5) + nesting patterns around the recursion limit; every input goes to every entry "
+        "overlongs, surrogates, bytes >= 0xF5) + nesting patterns around the recursion limit + long runs of one character (255 / 256 / 300 / 70 000 quotes, blanks, digits, commas, ...); every input goes to every entry "
         "point (DocumentMut, ImDocument, Value, Item, Key, Key::parse, toml::from_str into Table/Value/a derived type, "
         "toml_edit::de::from_str/from_slice, both ValueDeserializers, Datetime::from_str) followed by to_string, Debug, clone, "
         "drop, into_mut, from_document, into_deserializer, try_into, error rendering; 10 s budget per call; build with debug assertions and overflow "
@@ -60,6 +60,18 @@ def run(ctx):
     dp = ctx.path("depth-texts.ndjson")
     ctx.harness(h, ["depth-render", "--in", pp, "--out", dp])
     ins.append(("depth-patterns", dp))
+    # long runs of one character (counters and buffers sized in bytes): quotes inside the other kind of string,
+    # blanks, digits, underscores, dots, brackets' worth of commas
+    runs = []
+    for n in (255, 256, 300, 70000):
+        for name, text in (("apostrophes-in-basic", 'a = "%s"\n' % ("'" * n)), ("quotes-in-literal", "a = '%s'\n" % ('"' * n)),
+                           ("apostrophes-in-ml-basic", 'a = \"\"\"%s\"\"\"\n' % ("'" * n)), ("blanks", "a =%s1\n" % (" " * n)),
+                           ("digits", "a = %s\n" % ("1" * n)), ("fraction", "a = 1.%s\n" % ("1" * n)), ("fraction-digits-of-time", "a = 00:00:00.%s\n" % ("1" * n)),
+                           ("key", "%s = 1\n" % ("k" * n)), ("commas", "a = [%s]\n" % ("1," * n)), ("comment", "#%s\n" % ("#" * n))):
+            runs.append({"id": "run-%s-%d" % (name, n), "text": core.cps(text)})
+    rp = ctx.path("runs.ndjson")
+    core.write_ndjson(rp, runs)
+    ins.append(("runs", rp))
     calls = 0
     for tag, path in ins:
         evp, crashes = run_entry(ctx, h, tag, path, bytes_mod=10 if ctx.quick else 3)
